@@ -189,12 +189,16 @@ def gen_cases(rng, ctx):
         toks = [flags, names(main), alts_tok(alts), names(rp), names(ping), names(speed)]
         cands = [x for x in main + rp + ping + speed + [a for _, a in alts] + ["c." + main[0], "zz." + main[0], "nope"] + LABELS[:10]]
         queries = []
+        mtoks = list(toks)       # what the model is asked: on TCP an offer of h3 does not count (the rest of the offer does)
         for _ in range(12):
             sni = rng.choice(cands)
             alpn = [a for a in gen_alpn(rng) if a]
+            if rng.chance(1, 4):
+                alpn = [b"h3"] + alpn if rng.chance(1, 2) else alpn + [b"h3"]
             queries.append(([list(a) for a in alpn], sni))
             toks += [names(alpn), list(sni.encode())]
-        cases.append(Case(line("c05_front", toks), line("c05_select", toks), kind="listener:handshakes", nontrivial=True,
+            mtoks += [names([a for a in alpn if a != b"h3"]), list(sni.encode())]
+        cases.append(Case(line("c05_front", toks), line("c05_select", mtoks), kind="listener:handshakes", nontrivial=True,
                           meta={"flags": flags, "main": main, "alts": alts, "rp": rp, "ping": ping, "speed": speed, "queries": queries, "front": True}))
     # the demultiplexer behind the real QUIC listener: one QUIC + HTTP/3 handshake per query, then an unauthenticated GET whose
     # answer tells the channels apart (ping 200, speedtest 400, tunnel / reverse proxy 502 or no answer)
@@ -405,7 +409,12 @@ def judge(case, impl, model, spec, ctx):
             return []
         if impl == "2":
             return [("disagree", "host settings refused")] if model != "2" else []
-        exp = oracle(case.meta)
+        # on TCP an offer of h3 does not count: the documented choice is the one for the rest of the offer; nothing but h3 = refused
+        tcp_meta = dict(case.meta)
+        tcp_meta["queries"] = [([a for a in alpn if bytes(a) != b"h3"], sni) for alpn, sni in case.meta["queries"]]
+        exp = oracle(tcp_meta)
+        only_h3 = [bool(alpn) and all(bytes(a) == b"h3" for a in alpn) for alpn, sni in case.meta["queries"]]
+        exp = [None if o else e for e, o in zip(exp, only_h3)]
         got = [untok(t) for t in impl.split()]
         # the model's answers for the same queries
         mt = model.split() if model and model != "2" else None
@@ -420,7 +429,8 @@ def judge(case, impl, model, spec, ctx):
                 else:
                     mans.append(t)
                     i += 2
-        for n, ((alpn, sni), e, g) in enumerate(zip(case.meta["queries"], exp, got)):
+        for n, ((alpn_sent, sni), e, g) in enumerate(zip(case.meta["queries"], exp, got)):
+            alpn = [a for a in alpn_sent if bytes(a) != b"h3"]
             if g == [9]:
                 continue
             # the known finding (the secondary channels' choice ignores which protocols are enabled) is judged at the door,
@@ -430,7 +440,7 @@ def judge(case, impl, model, spec, ctx):
             enabled = [pp for pp, fl in zip((1, 2, 3), case.meta["flags"][:3]) if fl]
             if e is not None and e[0][0] != 0 and any(known_p.get(bytes(a)) not in enabled for a in alpn if bytes(a) in known_p):
                 continue
-            what = "real TLS listener, SNI %r, ALPN offer %r" % (sni, [bytes(a) for a in alpn])
+            what = "real TLS listener, SNI %r, ALPN offer %r" % (sni, [bytes(a) for a in alpn_sent])
             # on TCP an HTTP/3 choice is refused
             want = None if (e is None or e[1] is None or e[1] == 3) else e[1]
             if g[0] == 0:
@@ -446,7 +456,7 @@ def judge(case, impl, model, spec, ctx):
                     out.append(("violation", "%s: a protocol was announced although the client offered none" % what))
             if out:
                 break
-            if n < len(mans):
+            if n < len(mans) and not only_h3[n]:      # (the model line was given the offer without h3; for "nothing but h3" that is no offer at all)
                 m = mans[n]
                 mwant = None if (m is None or m[2] == 3) else m[2]
                 if (g[0] == 1) != (mwant is not None) or (g[0] == 1 and alpn and g[1] != mwant):
